@@ -32,12 +32,14 @@ func runC03(c *Ctx, r *Report) {
 	c03Write(c, r, "C03.R11")
 	c03HalfCloser(c, r, "C03.R14")
 	c03TeeBranch(c, r, "C03.R15")
-	c01R7(c, r, "C03.R17") // every byte from the first unconsumed one reaches the upstreams: handlers in front of the proxy hand on what they have buffered
-	c08R6(c, r, "C03.R16") // the relay starts with the client's own bytes: a new connection's matching buffer is proven empty (server and listener wrapper alike)
-	c11PeerKey(c, r, "C03.R13") // each upstream of the group is its own backend: two dial addresses never collapse into one peer
-	c05R23(c, r, "C03.R12")     // the relay runs without the matching deadline: a deadline left armed on the client socket cuts the client->upstream direction when it passes
-	c09R7(c, r, "C03.R9")       // UDP downstream: a datagram that exactly fills the read buffer must not produce a spurious end of stream
-	c01R4(c, r, "C03.R8")       // what was prefetched for matching is what the relay later replays: prefetch appends exactly what it read
+	c01R7(c, r, "C03.R17")                // every byte from the first unconsumed one reaches the upstreams: handlers in front of the proxy hand on what they have buffered
+	c01R1(c, r, "C03.R18")                // "from its first unconsumed byte": every matcher of a set is rewound before the next one freezes the cursor (a deferred rewind leaves the bytes a non-last matcher read out of the relayed stream)
+	c17ReadAs(c, r, "C03.R19", "C03.R20") // a throttle in front of the proxy: a batch larger than a limiter's burst fails the wait, the pump takes the error for the end of the client's stream and half-closes the upstreams
+	c08R6(c, r, "C03.R16")                // the relay starts with the client's own bytes: a new connection's matching buffer is proven empty (server and listener wrapper alike)
+	c11PeerKey(c, r, "C03.R13")           // each upstream of the group is its own backend: two dial addresses never collapse into one peer
+	c05R23(c, r, "C03.R12")               // the relay runs without the matching deadline: a deadline left armed on the client socket cuts the client->upstream direction when it passes
+	c09R7(c, r, "C03.R9")                 // UDP downstream: a datagram that exactly fills the read buffer must not produce a spurious end of stream
+	c01R4(c, r, "C03.R8")                 // what was prefetched for matching is what the relay later replays: prefetch appends exactly what it read
 }
 
 func c03Proxy(c *Ctx, r *Report) {
